@@ -16,10 +16,18 @@ structure SState where
   poison : List Nat := []
   /-- C04, codec half: (layer index, setter name) of every typed setter that was accepted since `new` (first call only) -/
   typed : List (Nat × String) := []
-  /-- C04, codec half, values: (layer index, class, setter name, expected dump) recorded with the FIRST accepted call of a
+  /-- C04, codec half, values: (layer index, class, dump field, expected dump) recorded with the FIRST accepted call of a
       typed setter whose arguments are representable (`typedExpect`); later calls of the same setter add options the typed
       getter does not look at -/
   typedVals : List (Nat × String × String × String) := []
+  /-- the classes pushed since `new`, outermost first (`set <idx>` counts from the outermost layer) -/
+  classes : List String := []
+  /-- (layer index, option code) edited through the raw interface where the class has a code table (`codeOf`): only the
+      typed getter of that code is not tracked any more -/
+  poisonCodes : List (Nat × Nat) := []
+  /-- (layer index, setter) called with an argument the option cannot express (accepted all the same): the option it added
+      shadows what later calls of the setter add, so the setter is not tracked any more on that layer -/
+  poisonNames : List (Nat × String) := []
 
 structure Layer where
   cls : String
@@ -250,8 +258,8 @@ def dotJoin (xs : List (Option String)) : Option String := (xs.mapM id).map (fun
 
 def any (_ : Nat) : Bool := true
 
-/-- (class, setter) ↦ expected dump of the typed getter -/
-def typedExpect (name : String) (a : List String) : Option (String × String) :=
+/-- ICMPv6: setter ↦ expected dump of the typed getter -/
+def typedExpectIcmp6 (name : String) (a : List String) : Option (String × String) :=
   let r (v : Option String) := v.map (fun x => ("ICMPv6", x))
   match name, a with
   | "source_link_layer_addr", [x] | "target_link_layer_addr", [x] => r (hexArg? x (· == 6))
@@ -284,6 +292,163 @@ def typedExpect (name : String) (a : List String) : Option (String × String) :=
   | _, _ => none
 
 
+
+/-! Families other than ICMPv6.  Every row names the inverse theorem whose hypotheses (= the representability predicate) it
+    restates on the argument words; the predicates live in theorem files the driver must not import (they import Mathlib
+    lemma modules), so they are restated here — `tools/CODEC-INVENTORY.md` lists theorem ↔ Repr ↔ dump field.  The expected
+    string is the canonical rendering of the ARGUMENT in the format of the family's dump; nothing is read from the model. -/
+
+def usJoin (xs : List (Option String)) : Option String := (xs.mapM id).map (fun l => "_".intercalate l)
+
+/-- a `sep`-separated list of canonical decimals below `bound` (`-` = the empty list), `lo … hi` items; rendered with `out` -/
+def numListArg? (s : String) (sep out : String) (bound lo hi : Nat) : Option String :=
+  let items := if s == "-" then [] else s.splitOn sep
+  if lo ≤ items.length && items.length ≤ hi then
+    (items.mapM (fun it => numArg? it bound)).map (fun l => if l.isEmpty then "-" else out.intercalate l)
+  else none
+
+/-- `a:b[:c],…` (tuples of `k` 8-bit numbers) ↦ `a.b[.c],…`; `-` = empty -/
+def tuplesArg? (s : String) (k lo hi : Nat) : Option String :=
+  let items := if s == "-" then [] else s.splitOn ","
+  if lo ≤ items.length && items.length ≤ hi then
+    (items.mapM (fun it =>
+      let ws := it.splitOn ":"
+      if ws.length == k then (ws.mapM (fun w => numArg? w 256)).map (fun l => ".".intercalate l) else none)).map
+      (fun l => if l.isEmpty then "-" else ",".intercalate l)
+  else none
+
+/-- hex string cut into groups of `n` octets joined by `sep` (empty ↦ "") -/
+def hexChunks (h : String) (n : Nat) (sep : String) : String :=
+  if h == "-" then "" else
+  let cs := h.toList
+  let rec go (fuel : Nat) (cs : List Char) (acc : List String) : List String :=
+    match fuel with
+    | 0 => acc.reverse
+    | fuel + 1 => if cs.isEmpty then acc.reverse else go fuel (cs.drop (2 * n)) (String.ofList (cs.take (2 * n)) :: acc)
+  sep.intercalate (go (cs.length + 1) cs [])
+
+/-- `empty` or a ','-separated list of hex items (each `-` = no octets) of less than 64 KiB -/
+def classDataArg? (s : String) (allowEmpty : Bool) : Option String :=
+  if s == "empty" then (if allowEmpty then some s else none) else
+  if (s.splitOn ",").all (fun it => match hexLen? it with | some n => n < 65536 | none => false) then some s else none
+
+def two32 : Nat := 4294967296
+
+/-- TCP — `tcp_mss_codec` (v < 2^16), `tcp_winscale_codec` / `tcp_altchecksum_codec` (v < 2^8), `tcp_timestamp_codec`
+    (v, r < 2^32), `tcp_sack_codec` (`Tcp.ReprSack`: edges < 2^32, the 40-octet option space bounds the number: the
+    setter throws beyond), `tcp_encodeSackPermitted_ok` (flag option: presence is the value) -/
+def typedExpectTcp (name : String) (a : List String) : Option (String × String) :=
+  match name, a with
+  | "mss", [x] => (numArg? x 65536).map (("mss", ·))
+  | "winscale", [x] => (numArg? x 256).map (("winscale", ·))
+  | "altchecksum", [x] => (numArg? x 256).map (("altchecksum", ·))
+  | "timestamp", [v, r] => (dotJoin [numArg? v two32, numArg? r two32]).map (("timestamp", ·))
+  | "sack", [l] => (numListArg? l "." "." two32 0 16383).map (("sack", ·))
+  | "sack_permitted", [] => some ("sack_permitted", "1")
+  | _, _ => none
+
+/-- IP — `codec_security` (16/16/16/24-bit members), `codec_streamId` (v < 2^16), `codec_route` (pointer < 2^8, any number
+    of 4-octet addresses incl. none; dump `<pointer>:<addr>.<addr>…`) -/
+def typedExpectIp (name : String) (a : List String) : Option (String × String) :=
+  match name, a with
+  | "security", [x, y, z, w] =>
+    (dotJoin [numArg? x 65536, numArg? y 65536, numArg? z 65536, numArg? w 16777216]).map (("security", ·))
+  | "stream_identifier", [x] => (numArg? x 65536).map (("stream_identifier", ·))
+  | "lsrr", [p, h] | "ssrr", [p, h] | "record_route", [p, h] =>
+    match numArg? p 256, hexArg? h (· % 4 == 0) with
+    | some p, some h => some (name, p ++ ":" ++ hexChunks h 4 ".")
+    | _, _ => none
+  | _, _ => none
+
+/-- DHCP — `dhcp_type_roundtrip` (v < 2^8), `dhcp_ip_roundtrip` (4 octets), `dhcp_u32_roundtrip` (v < 2^32),
+    `dhcp_iplist_roundtrip` (4-octet addresses; through the wire at most 63 = 8-bit option length, KF-WApp-6) -/
+def typedExpectDhcp (name : String) (a : List String) : Option (String × String) :=
+  match name, a with
+  | "type", [x] => (numArg? x 256).map ((name, ·))
+  | "server_identifier", [x] | "subnet_mask", [x] | "broadcast", [x] | "requested_ip", [x] =>
+    (hexArg? x (· == 4)).map ((name, ·))
+  | "lease_time", [x] | "renewal_time", [x] | "rebind_time", [x] => (numArg? x two32).map ((name, ·))
+  | "routers", [l] | "domain_name_servers", [l] => (hexListArg? l 4 0 63).map ((name, ·))
+  | _, _ => none
+
+/-- DHCPv6 — `decIaNa_enc`, `decIaTa_enc`, `decIaAddr_enc` (32-bit members, 16-octet address, any nested option octets),
+    `decU16List_enc`, `decU8_enc`, `decU16_enc`, `decBytes_enc`, `decIp6_enc`, `decStatus_enc` (code < 2^16, any message),
+    `decUserClass_enc` (non-empty list, RFC 8415 §21.15), `decVendorClass_enc` (entries < 64 KiB), `decVendorInfo_enc`,
+    `decDuid_enc` (at least one identifier octet, RFC 8415 §11.1); rapid_commit / reconfigure_accept are flag options.
+    A DHCPv6 option holds at most 65535 octets (16-bit length): the generator stays far below.
+    `authentication` has no inverse theorem: not in the table. -/
+def typedExpectDhcp6 (name : String) (a : List String) : Option (String × String) :=
+  let r (v : Option String) := v.map ((name, ·))
+  match name, a with
+  | "ia_na", [i, t1, t2, o] => r (dotJoin [numArg? i two32, numArg? t1 two32, numArg? t2 two32, hexArg? o (· < 65000)])
+  | "ia_ta", [i, o] => r (dotJoin [numArg? i two32, hexArg? o (· < 65000)])
+  | "ia_address", [ad, p, v, o] => r (dotJoin [hexArg? ad (· == 16), numArg? p two32, numArg? v two32, hexArg? o (· < 65000)])
+  | "option_request", [l] => r (numListArg? l "," "," 65536 0 32767)
+  | "preference", [x] | "reconfigure_msg", [x] => r (numArg? x 256)
+  | "elapsed_time", [x] => r (numArg? x 65536)
+  | "relay_message", [x] | "interface_id", [x] => r (hexArg? x (· < 65536))
+  | "server_unicast", [x] => r (hexArg? x (· == 16))
+  | "status_code", [c, m] => r (dotJoin [numArg? c 65536, hexArg? m (· < 65000)])
+  | "user_class", [l] => r (classDataArg? l false)
+  | "vendor_class", [e, l] => r (dotJoin [numArg? e two32, classDataArg? l true])
+  | "vendor_info", [e, d] => r (dotJoin [numArg? e two32, hexArg? d (· < 65000)])
+  | "client_id", [i, d] | "server_id", [i, d] => r (dotJoin [numArg? i 65536, hexArg? d (fun n => 0 < n && n < 65000)])
+  | "rapid_commit", [] => some ("has_rapid_commit", "1")
+  | "reconfigure_accept", [] => some ("has_reconfigure_accept", "1")
+  | _, _ => none
+
+/-- Dot11 management frames (`typed=` items, members joined by `_`) — `container_roundtrip` (≤ 255 octets), `codec_rates`
+    (rates < 64 Mb/s: 7 bits), `codec_u8`, `codec_u16`, `codec_pair`, `codec_pairs`, `codec_fhSet`, `codec_cfSet`,
+    `codec_ibssDfs` (non-empty channel map), `codec_country` (3-octet string, non-empty triplets; the padding octet of an
+    even number of triplets is not part of the value), `codec_fhPattern`, `codec_channelSwitch`, `codec_quiet`,
+    `codec_bssLoad`, `codec_tim` (non-empty bitmap), `codec_vendor` (3-octet OUI), `codec_rsn` (`RsnRepr`).
+    Every element holds at most 255 octets (8-bit length; the setters throw beyond). -/
+def typedExpectDot11 (name : String) (a : List String) : Option (String × String) :=
+  let r (v : Option String) := v.map ((name, ·))
+  let u8 (x : String) := numArg? x 256
+  let u16 (x : String) := numArg? x 65536
+  match name, a with
+  | "ssid", [x] | "challenge_text", [x] | "request_information", [x] => r (hexArg? x (· ≤ 255))
+  | "supported_rates", [l] | "extended_supported_rates", [l] => r (numListArg? l "," "," 128 0 255)
+  | "qos_capability", [x] | "ds_parameter_set", [x] | "power_constraint", [x] | "erp_information", [x] => r (u8 x)
+  | "ibss_parameter_set", [x] => r (u16 x)
+  | "power_capability", [x, y] | "fh_parameters", [x, y] | "tpc_report", [x, y] => r (usJoin [u8 x, u8 y])
+  | "supported_channels", [l] => r (tuplesArg? l 2 0 127)
+  | "fh_parameter_set", [d, x, y, z] => r (usJoin [u16 d, u8 x, u8 y, u8 z])
+  | "cf_parameter_set", [x, y, z, w] => r (usJoin [u8 x, u8 y, u16 z, u16 w])
+  | "ibss_dfs", [m, ri, l] => r (usJoin [hexArg? m (· == 6), u8 ri, tuplesArg? l 2 1 124])
+  | "country", [cc, l] => r (usJoin [hexArg? cc (· == 3), tuplesArg? l 3 1 84])
+  | "fh_pattern_table", [x, y, z, w, t] => r (usJoin [u8 x, u8 y, u8 z, u8 w, hexArg? t (· ≤ 251)])
+  | "channel_switch", [x, y, z] => r (usJoin [u8 x, u8 y, u8 z])
+  | "quiet", [x, y, z, w] => r (usJoin [u8 x, u8 y, u16 z, u16 w])
+  | "bss_load", [x, y, z] => r (usJoin [u16 x, u8 y, u16 z])
+  | "tim", [x, y, z, bm] => r (usJoin [u8 x, u8 y, u8 z, hexArg? bm (fun n => 0 < n && n ≤ 252)])
+  | "vendor_specific", [o, d] => r (usJoin [hexArg? o (· == 3), hexArg? d (· ≤ 252)])
+  | "rsn_information", [v, g, pw, ak, c] =>
+    r (usJoin [u16 v, numArg? g two32, numListArg? pw "," "+" two32 0 30, numListArg? ak "," "+" two32 0 30, u16 c])
+  | _, _ => none
+
+/-- PPPoE — `pppoe_vendor_codec` (vendor id < 2^32, any data ≤ 65531 octets); the verbatim tags are `verbatimSetters` -/
+def typedExpectPPPoE (name : String) (a : List String) : Option (String × String) :=
+  match name, a with
+  | "vendor_specific", [v, d] => (dotJoin [numArg? v two32, hexArg? d (· ≤ 65531)]).map ((name, ·))
+  | _, _ => none
+
+/-- setter name + argument words ↦ the candidates (class, dump field / `typed=` item, expected value); the class of the
+    layer decides at `show` which candidate applies (setter names are shared between classes: `timestamp`, `type`,
+    `vendor_specific`, `nonce` …).  A class `Dot11` stands for every Dot11 management class. -/
+def typedExpect (name : String) (a : List String) : List (String × String × String) :=
+  let c (cls : String) (v : Option (String × String)) : List (String × String × String) :=
+    match v with
+    | some (f, x) => [(cls, f, x)]
+    | none => []
+  c "ICMPv6" ((typedExpectIcmp6 name a).map (fun p => (name, p.2))) ++ c "TCP" (typedExpectTcp name a) ++
+  c "IP" (typedExpectIp name a) ++ c "DHCP" (typedExpectDhcp name a) ++ c "DHCPv6" (typedExpectDhcp6 name a) ++
+  c "Dot11" (typedExpectDot11 name a) ++ c "PPPoE" (typedExpectPPPoE name a)
+
+def clsMatches (cls layerCls : String) : Bool :=
+  cls == layerCls || (cls == "Dot11" && layerCls.startsWith "Dot11")
+
 /-- the dump of the typed getter `name` of a layer, whatever the family's harness convention: a field of that name
     (L2, Ip, Ip6, Transport, Icmp, App) or an item `name:value` of the Dot11 management frames' `typed=` field
     (items joined by `|`; an absent item = `option_not_found`) -/
@@ -297,11 +462,42 @@ def typedLookup (l : Layer) (name : String) : Option String :=
         if it.startsWith (name ++ ":") then some ((it.drop (name.length + 1)).toString) else none)
     | none => none
 
+/-- like `typedLookup`, but an absent item of a `typed=` field reads as `nf` (option_not_found): after an accepted setter
+    and without raw edits the option must be there -/
+def typedValue (l : Layer) (name : String) : Option String :=
+  match typedLookup l name with
+  | some v => some v
+  | none => if l.fields.any (fun f => f.1 == "typed") then some "nf" else none
+
 /-- a typed getter that threw on the option it found: `bad` / `malformed_option` (malformed_option), `mp` /
     `malformed_packet`, `!<exception>` — the conventions of the seven family harnesses; `none` / `nf` (option_not_found)
     is not one of them: a raw edit may have removed the option -/
 def typedFailed (v : String) : Bool :=
   v == "bad" || v == "mp" || v == "malformed_option" || v == "malformed_packet" || v.startsWith "!"
+
+/-- option code a typed setter of TCP / IP / DHCP / DHCPv6 adds (tcp.h, ip.h, dhcp.h, dhcpv6.h `OptionTypes`; for IP the
+    option number, i.e. the type octet modulo 32).  Used only to narrow what a raw `add_option <code>` / `remove_option <code>`
+    un-tracks: without an entry the whole layer is un-tracked as before. -/
+def codeOf (cls name : String) : Option Nat :=
+  let look (t : List (String × Nat)) := (t.find? (fun e => e.1 == name)).map (·.2)
+  match cls with
+  | "TCP" => look [("mss", 2), ("winscale", 3), ("sack_permitted", 4), ("sack", 5), ("timestamp", 8), ("altchecksum", 14)]
+  | "IP" => look [("security", 2), ("lsrr", 3), ("record_route", 7), ("stream_identifier", 8), ("ssrr", 9)]
+  | "DHCP" => look [("subnet_mask", 1), ("routers", 3), ("domain_name_servers", 6), ("hostname", 12), ("domain_name", 15),
+                    ("broadcast", 28), ("requested_ip", 50), ("lease_time", 51), ("type", 53), ("server_identifier", 54),
+                    ("renewal_time", 58), ("rebind_time", 59)]
+  | "DHCPv6" => look [("client_id", 1), ("server_id", 2), ("ia_na", 3), ("ia_ta", 4), ("ia_address", 5), ("option_request", 6),
+                      ("preference", 7), ("elapsed_time", 8), ("relay_message", 9), ("authentication", 11), ("server_unicast", 12),
+                      ("status_code", 13), ("rapid_commit", 14), ("user_class", 15), ("vendor_class", 16), ("vendor_info", 17),
+                      ("interface_id", 18), ("reconfigure_msg", 19), ("reconfigure_accept", 20)]
+  | _ => none
+
+def hasCodeTable (cls : String) : Bool := cls == "TCP" || cls == "IP" || cls == "DHCP" || cls == "DHCPv6"
+
+def normCode (cls : String) (c : Nat) : Nat := if cls == "IP" then c % 32 else c
+
+/-- dump field ↦ setter name (the flag options are dumped as `has_<name>`) -/
+def setterOfField (f : String) : String := if f.startsWith "has_" then (f.drop 4).toString else f
 
 /-- C04 = the wire half (`specReparse`) + "getters reflect exactly the accumulated edits" for the verbatim setters.  A typed
     setter ADDS an option and the typed getter returns the FIRST option of that code ("first matching option"), so what a
@@ -312,34 +508,58 @@ def spec04 (st : SState) (line : String) : SState × String :=
   | none => (st, "bad-line")
   | some (op, common, _) =>
     match words op with
-    | ["new"] => ({ st with sets := [], poison := [], typed := [], typedVals := [] }, "unspecified")
+    | ["new"] => ({ st with sets := [], poison := [], typed := [], typedVals := [], classes := [], poisonCodes := [], poisonNames := [] }, "unspecified")
+    | "push" :: cls :: _ =>
+      if (words common).head? == some "ok" then ({ st with classes := st.classes ++ [cls] }, "unspecified") else (st, "unspecified")
     | "set" :: idx :: name :: rest =>
       if (words common).head? != some "ok" then (st, "unspecified") else
       match idx.toNat? with
       | none => (st, "unspecified")
       | some i =>
-        if st.poison.contains i then (st, "unspecified")
+        let cls := st.classes[i]?.getD ""
+        let codePoisoned := match codeOf cls name with
+          | some c => st.poisonCodes.contains (i, c)
+          | none => false
+        if st.poison.contains i || codePoisoned || st.poisonNames.contains (i, name) then (st, "unspecified")
+        -- END terminates an option list: what is added behind it is not an option on the wire
+        else if name == "eol" || name == "end" then
+          ({ st with sets := st.sets.filter (fun e => e.1 != i), typed := st.typed.filter (fun e => e.1 != i),
+                     typedVals := st.typedVals.filter (fun e => e.1 != i), poison := i :: st.poison }, "unspecified")
+        -- a raw edit by code on a class with a code table: only the typed getter of that code is affected
+        else if (name.startsWith "add_option" || name == "remove_option") && hasCodeTable cls && (rest.head?.bind (·.toNat?)).isSome then
+          let c := normCode cls ((rest.head?.bind (·.toNat?)).getD 0)
+          -- the END code of the class terminates the list on the wire: as `eol` / `end` above
+          if (cls == "DHCP" && c == 255) || ((cls == "TCP" || cls == "IP") && c == 0) then
+            ({ st with sets := st.sets.filter (fun e => e.1 != i), typed := st.typed.filter (fun e => e.1 != i),
+                       typedVals := st.typedVals.filter (fun e => e.1 != i), poison := i :: st.poison }, "unspecified")
+          else
+          let hit (n : String) : Bool := codeOf cls (setterOfField n) == some c
+          ({ st with sets := st.sets.filter (fun e => !(e.1 == i && hit e.2.1)),
+                     typed := st.typed.filter (fun e => !(e.1 == i && hit e.2)),
+                     typedVals := st.typedVals.filter (fun e => !(e.1 == i && hit e.2.2.1)),
+                     poisonCodes := (i, c) :: st.poisonCodes }, "unspecified")
         else if verbatimSetters.contains name then
           match rest with
           | [v] =>
             if isHexish v && !(st.sets.any (fun e => e.1 == i && e.2.1 == name)) then
-              ({ st with sets := (i, name, v) :: st.sets }, "unspecified")
+              ({ st with sets := (i, name, v) :: st.sets,
+                         typedVals := (typedExpect name rest).map (fun (cls, f, x) => (i, cls, f, x)) ++ st.typedVals }, "unspecified")
             else (st, "unspecified")
           | _ => (st, "unspecified")
-        else if name.startsWith "add_" || name.startsWith "remove_" || name == "end_of_list" || name == "vendor_specific" then
+        else if name.startsWith "add_" || name.startsWith "remove_" || name == "end_of_list" then
           ({ st with sets := st.sets.filter (fun e => e.1 != i), typed := st.typed.filter (fun e => e.1 != i),
                      typedVals := st.typedVals.filter (fun e => e.1 != i), poison := i :: st.poison }, "unspecified")
         -- representability: RFC 8415 §21.15 — a User Class option holds one or more instances of user class data, so the empty
         -- list is not an argument the option can express (libtins encodes it as a zero-length option and rejects that)
-        else if name == "user_class" && rest == ["empty"] then (st, "unspecified")
+        else if name == "user_class" && rest == ["empty"] then
+          (if st.typed.contains (i, name) then st else { st with poisonNames := (i, name) :: st.poisonNames }, "unspecified")
         -- RFC 8415 §11.1: a DUID is a type code followed by the octets that make up the identifier; a DUID without any
         -- identifier octet is not one the option can express (the decoder asks for at least one)
-        else if (name == "client_id" || name == "server_id") && rest.getLast? == some "-" then (st, "unspecified")
+        else if (name == "client_id" || name == "server_id") && rest.getLast? == some "-" then
+          (if st.typed.contains (i, name) then st else { st with poisonNames := (i, name) :: st.poisonNames }, "unspecified")
         else if st.typed.contains (i, name) then (st, "unspecified")
         else
-          let vals := match typedExpect name rest with
-            | some (cls, v) => (i, cls, name, v) :: st.typedVals
-            | none => st.typedVals
+          let vals := (typedExpect name rest).map (fun (cls, f, x) => (i, cls, f, x)) ++ st.typedVals
           ({ st with typed := (i, name) :: st.typed, typedVals := vals }, "unspecified")
     | ["show"] =>
       let cw := words common
@@ -349,8 +569,8 @@ def spec04 (st : SState) (line : String) : SState × String :=
         | some ls =>
           let bad := st.sets.filterMap (fun (i, name, v) =>
             match ls[i]? with
-            | some l => match l.fields.find? (fun f => f.1 == name) with
-              | some f => if f.2 == v then none else some s!"layer {i} {name} set={v.take 60} get={f.2.take 60}"
+            | some l => match typedLookup l name with
+              | some g => if g == v then none else some s!"layer {i} {name} set={v.take 60} get={g.take 60}"
               | none => none
             | none => none)
           -- codec half: a typed setter was accepted, so the typed getter of the SAME object (dumped under the setter's
@@ -363,14 +583,19 @@ def spec04 (st : SState) (line : String) : SState × String :=
               | none => none
             | none => none)
           -- … and for a representable argument it must return that argument (`typedExpect`)
-          let wrong := st.typedVals.filterMap (fun (i, cls, name, v) =>
-            match ls[i]? with
+          let wrongIn (chain : List Layer) (tag : String) : List String := st.typedVals.filterMap (fun (i, cls, name, v) =>
+            match chain[i]? with
             | some l =>
-              if l.cls != cls then none else
-              match l.fields.find? (fun f => f.1 == name) with
-              | some f => if f.2 == v then none else some s!"layer {i} {name} set={v.take 80} get={f.2.take 80}"
+              if !clsMatches cls l.cls then none else
+              match typedValue l name with
+              | some g => if g == v then none else some s!"layer {i} {l.cls} {name}{tag} set={v.take 80} get={g.take 80}"
               | none => none
             | none => none)
+          -- … of the live object, and of what a parser of the serialized bytes gets back (`re=`)
+          let reChain := match kv cw "re" with
+            | some re => (parseChainStr re).getD []
+            | none => []
+          let wrong := wrongIn ls "" ++ wrongIn reChain "(re-parsed)"
           match bad, undec, wrong with
           | b :: _, _, _ => (st, s!"violates last-value-set {b}")
           | [], u :: _, _ => (st, s!"violates getter-rejects-own-setter {u}")
